@@ -197,10 +197,19 @@ def replay_main(h, vals):
     lines.append('    }\n}')
     return '\n'.join(lines) + '\n'
 
-def search_native(harness, timeout=420):
+def native_batch(harnesses, timeout=420):
+    """run several native oracles against the current tree with ONE build of the oracle crate; {harness: result}"""
     tmp = tempfile.mkdtemp(prefix='verif_replay_')
     try:
         setup(tmp)
+        return {h: search_native(h, timeout, tmp) for h in harnesses}
+    finally:
+        shutil.rmtree(tmp, ignore_errors=True)
+
+def search_native(harness, timeout=420, tmp_shared=None):
+    tmp = tmp_shared or tempfile.mkdtemp(prefix='verif_replay_')
+    try:
+        if not tmp_shared: setup(tmp)
         nv = NATIVE[harness]
         os.makedirs(os.path.join(tmp, 'src', 'bin'), exist_ok=True)
         open(os.path.join(tmp, 'src', 'bin', 'native_search.rs'), 'w').write('''use elf_verif_replay::*;
@@ -242,7 +251,7 @@ fn main() {
                 'inputs': case, 'replay_main': main, 'replay_output': (r.stdout[-1500:] + r.stderr[-500:]) if not panicked else ('REPLAY PANICS on the real crate: ' + r.stderr[-700:]),
                 'kani_cmd': 'cargo run --release --bin native_search   (native enumeration)', 'lib_rs': open(os.path.join(tmp, 'src', 'lib.rs')).read() + extra_src}
     finally:
-        shutil.rmtree(tmp, ignore_errors=True)
+        if not tmp_shared: shutil.rmtree(tmp, ignore_errors=True)
 
 def search(harness, timeout=420):
     if harness in NATIVE: return search_native(harness, timeout)
